@@ -199,6 +199,18 @@ def attack_docs(valid, mon, proto):
                     es = [x for x in r2.iter() if isinstance(x.tag, str)]
                     es[idx].text = marker
                 yield kind, 'text:%s#%d' % (name, idx), serialise_with(decl, mut)
+        else:
+            # element-only content: the reference sits between the tags (before the first child / after the last one)
+            for kind, decl, ref in entity_decls:
+                marker = 'VFENTITYREF' if ref == '&xxe;' else 'VFDTDENTREF'
+                for where in ('lead', 'trail'):
+                    def mut(r2, idx=idx, marker=marker, where=where):
+                        es = [x for x in r2.iter() if isinstance(x.tag, str)]
+                        if where == 'lead':
+                            es[idx].text = marker
+                        else:
+                            es[idx][-1].tail = marker
+                    yield kind, 'text:%s#%d/%s' % (name, idx, where), serialise_with(decl, mut)
         for ak in list(e0.attrib):
             if 'XMLSchema-instance' in ak:
                 continue
@@ -438,8 +450,12 @@ def _strings(v):
             for s in _strings(x):
                 yield s
     elif isinstance(v, etree._Element):
-        yield etree.tostring(v, encoding='unicode')
-        yield ''.join(v.itertext())
+        try:
+            yield etree.tostring(v, encoding='unicode')
+            if isinstance(v.tag, str):
+                yield ''.join(v.itertext())
+        except (ValueError, TypeError):
+            yield repr(v)
 
 
 def run_shard(shard, only=None):
